@@ -3,7 +3,9 @@
 theorems : lean/GoldModel/Props/C14.lean — requests_complete (every request of every kind returns on every workspace), link_acyclic (the repaired linking rule never creates a cycle
            of parent tables, for every parent assignment / uses-graph / request order), lookup_terminates,
            walks_terminate (every graph) / walks_terminate_acyclic, negation witnesses self_cycle, mutual_cycle
-tie 1    : E11ParentLink — self-parent guard, chain check and visited sets read from the source on every run
+tie 1    : E11ParentLink — self-parent guard, chain check and visited sets read from the source on every run;
+           E11TableCache — the table is published before the tree walk and a published table is handed out
+           whoever owns it (class, module, nobody = file without header)
 tie 2    : correspondence `lock` — the real ProjectManager on materialised workspaces of every shape: the model
            predicts per request completes | deadlocks | diverges and the final parent pointer of every class table
 oracle   : every request of every kind on every file completes before a deadline on its own thread, a second
@@ -272,6 +274,7 @@ def run(ctx):
         "Lean 4.33 kernel + leanchecker; axioms ⊆ {propext, Classical.choice, Quot.sound}",
         "hand-written model lean/GoldModel/Model/Locks.lean (publish-before-walk, handle_class linking rule, lock structure of parent recursion, member walks), tied by the `lock` correspondence (per-request outcome + final parent pointers) and by E11ParentLink",
         "vlib/extractors/parent_link.py (reads guard, chain check, visited sets; fails closed on any other shape)",
+        "vlib/extractors/table_cache.py (reads: table stored on the document info before walk_tree; get_symbol_table_for_uri_def_only returns the stored table unconditionally; fails closed on any other shape)",
         "std::sync::Mutex as a non-reentrant lock whose guard is dropped at the end of the statement; Arc identity as table identity",
         "harness/src/modes/lock.rs + wsutil.rs (real ProjectManager / services on materialised workspaces, one thread per request, deadline + /proc thread state to tell blocked from busy, child processes), lean_exe compilation of the driver",
     ]
@@ -282,7 +285,7 @@ def run(ctx):
     ]
     if ctx.replay:
         return replay(ctx)
-    ctx.extract(["E11ParentLink"])
+    ctx.extract(["E11ParentLink", "E11TableCache"])
     ctx.prove("GoldModel.Props.C14")
     if not ctx.build_harness():
         return ctx.finish(rule=RULE)
@@ -333,7 +336,7 @@ def replay(ctx):
     if not line:
         print("replay file names no input:", json.dumps(d.get("broken", d), indent=1)[:3000])
         return 1
-    ctx.extract(["E11ParentLink"])
+    ctx.extract(["E11ParentLink", "E11TableCache"])
     ctx.build_harness()
     ctx.lake_build(["driver"])
     h = ctx.run_harness("lock", [line])[0]
